@@ -707,8 +707,12 @@ impl Fiber {
     // grab the appropriate exception handler
     let exception_handler = match self.exception_handler() {
       Some(exception_handler) => {
+        // bottom_frame is the frame count when the native called back into laythe.
+        // Only frames pushed above it belong to this nested execution, a handler at
+        // or below it belongs to the caller of the native and is reached once the
+        // native has returned the error
         let bottom_frame = bottom_frame.unwrap_or(0);
-        if exception_handler.call_frame_depth() >= bottom_frame {
+        if exception_handler.call_frame_depth() > bottom_frame {
           exception_handler
         } else {
           return UnwindResult::UnwindStopped;
